@@ -118,7 +118,32 @@ var apiFuncs = map[string]apiFn{
 		if err, _ := sipsp.ParseURI(in, &u); err != 0 {
 			return "reject"
 		}
-		ok := u.AdjustOffs(sipsp.PField{Offs: sipsp.OffsT(exInt(ex, "offs")), Len: sipsp.OffsT(exInt(ex, "len"))})
+		offs, ln := exInt(ex, "offs"), exInt(ex, "len")
+		ok := u.AdjustOffs(sipsp.PField{Offs: sipsp.OffsT(offs), Len: sipsp.OffsT(ln)})
+		if ok {
+			// every accessor on the relocated URI, against a buffer that holds the text at the new place; then moved
+			// once more (back to 3) and truncated
+			tb := make([]byte, offs+ln)
+			copy(tb[offs:], in)
+			for round := 0; round < 3; round++ {
+				for _, f := range []sipsp.PField{u.Scheme, u.User, u.Pass, u.Host, u.Port, u.Params, u.Headers, u.Long(), u.Short()} {
+					if int(f.Offs)+int(f.Len) > len(tb) {
+						return fmt.Sprintf("BAD relocated field %v outside the target buffer (len %d), round %d", f, len(tb), round)
+					}
+					_ = f.Get(tb)
+				}
+				_ = u.Flat(tb)
+				switch round {
+				case 0:
+					if !u.AdjustOffs(sipsp.PField{Offs: 3, Len: sipsp.OffsT(len(in))}) {
+						return "BAD second relocation refused"
+					}
+					tb = append([]byte("###"), in...)
+				case 1:
+					u.Truncate()
+				}
+			}
+		}
 		return fmt.Sprint(ok)
 	},
 	"IPdst": func(in []byte, _ map[string]any) string {
@@ -263,6 +288,19 @@ func c04NonParsing(r *Run) {
 					continue // every single flag, none, all; other combinations on 1/8 of the pairs
 				}
 				apiCheck(r, c, "URICmpPair", []byte(cu[i]), map[string]any{"other": cu[j], "flags": fl})
+			}
+		}
+	})
+	// relocation of well-formed URIs to near and far positions, then every accessor
+	ru := append(c04CmpURIs(), "tel:+358-555-1234567;postd=pp22", "tel:1", "tel:+1-555;x=y?h=1", "TEL:7042", "sip:h", "sips:[::1]:5061", "sip:u:p@h")
+	parallelFor(r, len(ru), func(c *enumCtx, i int) {
+		l := len(ru[i])
+		for _, tg := range []int{0, 1, 4, 35, 300, 4096, 65535 - l - 2, 65535 - l} {
+			for _, span := range []int{l, l + 2} {
+				if tg+span > 65535 {
+					continue
+				}
+				apiCheck(r, c, "AdjustOffs", []byte(ru[i]), map[string]any{"offs": tg, "len": span})
 			}
 		}
 	})
